@@ -6,26 +6,7 @@ import runner
 from runner import Harness as H
 
 
-def native_rejected_demo(pid, h, r):
-    """Fallback replay for the known-finding harness: the crate's native test runs 'a/b' with push() rejected for
-    'a', then 'c', through the sliced source and fails if the notifications are unbalanced."""
-    crate = "h-slice"
-    cwd = runner.prepare_crate(crate)
-    env = dict(runner.ENV)
-    env["CARGO_TARGET_DIR"] = os.path.join(runner.TARGET_ROOT, "native-slice")
-    p = subprocess.run(["cargo", "test", "--offline", "balanced_after_rejected_directory_push", "--", "--nocapture"], cwd=cwd, env=env,
-                       capture_output=True, text=True, timeout=900)
-    out = p.stdout + p.stderr
-    ran = "running 1 test" in out
-    failed = ran and "test result: FAILED" in out
-    os.makedirs(os.path.join(runner.REPLAYS, pid), exist_ok=True)
-    rpath = os.path.join(runner.REPLAYS, pid, h.short + ".json")
-    json.dump({"property_id": pid, "crate": crate, "harness": h.name, "kind": "native demonstration",
-               "native_test": "cargo test balanced_after_rejected_directory_push (harness/h-slice, after pre_build.py)",
-               "input": "make_relative_path_current('a/b') with push() rejected for 'a', then make_relative_path_current('c')",
-               "reproduced": bool(failed), "tail": out[-1500:]}, open(rpath, "w"), indent=1)
-    return (True if failed else (False if ran else None)), rpath
-
+native_rejected_demo = runner.make_native_replay("h-slice", "balanced_after_rejected_directory_push", "make_relative_path_current('a/b') with push() rejected for 'a', then make_relative_path_current('c') - through the sliced source")
 
 P = "c42::proofs::"
 hs = [
